@@ -85,6 +85,11 @@ def run(tier, seed, replay=None):
     rich["sparse_passes"] = H + GL + "table(sub) pass(2) cA > cB; endpass; pass(5) cB > cA / cA _; endpass; endtable;\ntable(pos) pass(3) cA {kern.x = 4m} cB; endpass; endtable;\n"
     rich["lb_items"] = H + GL + "table(sub) cA > cB / # _; cB > cA / _ #; cA cB > cB cA / # _ _ #; endtable;\n"
     rich["justification_pass"] = H + "table(glyph) cA = glyphid(3..6) {justify.0.stretch = 100m; justify.0.weight = 2}; cK = glyphid(7); cB = glyphid(8); endtable;\ntable(sub) cA > cB; endtable;\ntable(justification) cA _ > @1 cK:1; endtable;\ntable(pos) cB {advance.x += 5m}; endtable;\n"
+    rich["features_hidden_ids"] = (H + GL + 'table(feature) fa { id = 2000; id.hidden = "smcp"; name.1033 = string("A"); default = 0; settings { x0 { value = 0; name.1033 = string("x0"); } '
+                                   'x1 { value = 1; name.1033 = string("x1"); } x2 { value = 2; name.1033 = string("x2"); } x4 { value = 4; name.1033 = string("x4"); } } }\n'
+                                   'fb { id = "capb"; name.1033 = string("B"); default = 1; settings { n { value = 0; name.1033 = string("n"); } y { value = 1; name.1033 = string("y"); } } }\n'
+                                   'fc { id = 2001; id.hidden = 2002; id.hidden = "cv01"; name.1033 = string("C"); default = 0; settings { c0 { value = 0; name.1033 = string("c0"); } c1 { value = 3; name.1033 = string("c1"); } } } endtable;\n'
+                                   'table(language) l1 { languages = ("en"); fa = x2; }; endtable;\ntable(sub) if (fa == x1) cA > cB; endif; cB > cA / cA _; endtable;\n')
     rich["g_two_missing_in_context"] = H + 'table(glyph) cX = (unicode(0x4E00), unicode(0x4E01), codepoint("a")); cA = glyphid(3..6); cB = glyphid(7..10); endtable;\ntable(sub) cA > cB / cX _; endtable;\n'
     rich["g_missing_in_subst"] = H + "table(glyph) cA = unicode(0x61, 0x1234, 0x62); cB = glyphid(7..9); endtable;\ntable(sub) cA > cB; endtable;\n"
     rfont = _ttf.simple_font(40, post_names=[".notdef"] + ["g%d" % i for i in range(1, 40)])[0]
